@@ -33,6 +33,12 @@ enum Step {
     Call(usize, u8, u8),
     SetBase(i64),
     SetSlot(u8, i64),
+    /// slot k moves by one and the base by 31 the other way: every function that reads both
+    /// (`slots[k] * 31 + base`) is re-executed on its next call and yields the value it had
+    /// (the memoization crate then keeps the old node: "backdating")
+    Shift(u8),
+    /// `run_garbage_collection`
+    Gc,
 }
 
 fn expected(e: &Entry, a: u8, b: u8, base: i64, slots: &[i64; 3]) -> i64 {
@@ -69,6 +75,18 @@ fn run_steps(steps: &[Step]) -> Result<(), Fail> {
             Step::SetSlot(k, v) => {
                 slots[k as usize] = v;
                 db.set(Slot { key: k, v });
+            }
+            Step::Shift(k) => {
+                let d = if slots[k as usize] > 0 { -1 } else { 1 };
+                slots[k as usize] += d;
+                base -= 31 * d;
+                db.set(Slot { key: k, v: slots[k as usize] });
+                db.set(Base { v: base });
+            }
+            Step::Gc => {
+                if let Err(p) = vcore::catch_panic(std::panic::AssertUnwindSafe(|| db.run_garbage_collection())) {
+                    return Err(Fail::new("panic-in-garbage-collection", format!("step {i}: run_garbage_collection panicked: {p}")));
+                }
             }
             Step::Call(idx, a, b) => {
                 let e = &ENTRIES[idx];
@@ -116,6 +134,8 @@ fn steps_json(steps: &[Step]) -> Value {
             Step::Call(i, a, b) => json!(["call", ENTRIES[i].module, ENTRIES[i].name, a, b]),
             Step::SetBase(v) => json!(["base", v]),
             Step::SetSlot(k, v) => json!(["slot", k, v]),
+            Step::Shift(k) => json!(["shift", k]),
+            Step::Gc => json!(["gc"]),
         })
         .collect();
     json!({"generated_seed": generated::SEED, "steps": v})
@@ -137,6 +157,8 @@ fn steps_from_json(v: &Value) -> Option<Vec<Step>> {
             }
             "base" => out.push(Step::SetBase(a.get(1)?.as_i64()?)),
             "slot" => out.push(Step::SetSlot(a.get(1)?.as_u64()? as u8, a.get(2)?.as_i64()?)),
+            "shift" => out.push(Step::Shift(a.get(1)?.as_u64()? as u8)),
+            "gc" => out.push(Step::Gc),
             _ => return None,
         }
     }
@@ -314,6 +336,7 @@ fn self_check(report: &Report) -> BTreeMap<usize, usize> {
 
 fn steps_strategy(colliding: Vec<Vec<usize>>, idx: Vec<usize>) -> impl Strategy<Value = Vec<Step>> {
     let n = idx.len();
+    let idx2 = idx.clone();
     // a call step either picks any function, or two functions of one collision class called with
     // the same arguments back to back (the collision case), or the same function twice
     let any_call = (0..n, 0..3u8, 0..3u8).prop_map(move |(i, a, b)| vec![Step::Call(idx[i], a, b)]);
@@ -327,8 +350,30 @@ fn steps_strategy(colliding: Vec<Vec<usize>>, idx: Vec<usize>) -> impl Strategy<
         let j = cl[vcore::pick_index(y, cl.len())];
         vec![Step::Call(i, a, b), Step::Call(j, a, b)]
     });
-    let write = prop_oneof![(0..4i64).prop_map(Step::SetBase), (0..3u8, 0..4i64).prop_map(|(k, v)| Step::SetSlot(k, v))].prop_map(|s| vec![s]);
-    prop::collection::vec(prop_oneof![3 => any_call, 4 => pair, 2 => write], 1..=16).prop_map(|v| v.into_iter().flatten().collect())
+    let write = prop_oneof![
+        3 => (0..4i64).prop_map(Step::SetBase),
+        3 => (0..3u8, 0..4i64).prop_map(|(k, v)| Step::SetSlot(k, v)),
+        1 => (0..3u8).prop_map(Step::Shift),
+        1 => Just(Step::Gc)
+    ]
+    .prop_map(|s| vec![s]);
+    // a function is re-executed with an unchanged result (backdated), another function runs, the
+    // cache is garbage collected, and both are asked again
+    let backdate_gc = (any::<u16>(), any::<u16>(), 0..3u8, 0..3u8, 0..3u8, any::<bool>()).prop_map(move |(x, y, k, a, b, gc_first)| {
+        let readers: Vec<usize> = idx2.iter().copied().filter(|i| ENTRIES[*i].shape >= 6).collect();
+        if readers.is_empty() {
+            return vec![];
+        }
+        let f = readers[vcore::pick_index(x, readers.len())];
+        let g = idx2[vcore::pick_index(y, idx2.len())];
+        let mut v = vec![Step::Call(f, k, 0)];
+        if gc_first {
+            v.push(Step::Gc);
+        }
+        v.extend([Step::Shift(k), Step::Call(f, k, 0), Step::Call(g, a, b), Step::Gc, Step::Call(f, k, 0), Step::Call(g, a, b)]);
+        v
+    });
+    prop::collection::vec(prop_oneof![3 => any_call, 4 => pair, 2 => write, 1 => backdate_gc], 1..=16).prop_map(|v| v.into_iter().flatten().collect())
 }
 
 fn main() {
@@ -413,7 +458,7 @@ fn run(args: &Args) {
     });
 
     // Part 1
-    let cases = args.tier.pick(4000u32, 200_000u32);
+    let cases = args.tier.pick(40_000u32, 1_000_000u32);
     for prog in 0..generated::PROGRAMS {
         let idx: Vec<usize> = (0..ENTRIES.len()).filter(|i| ENTRIES[*i].prog == prog).collect();
         let mut classes: BTreeMap<(u32, &str, u8), Vec<usize>> = BTreeMap::new();
